@@ -18,6 +18,7 @@ import (
 	"go/ast"
 	"go/token"
 	"go/types"
+	"os"
 	"strings"
 )
 
@@ -415,9 +416,15 @@ func runStaleElementState(p *Prog, r *Report) {
 					}
 					for _, rhs := range s.Rhs {
 						switch ast.Unparen(rhs).(type) {
-						case *ast.IndexExpr, *ast.CallExpr, *ast.TypeAssertExpr, *ast.SelectorExpr:
+						case *ast.IndexExpr, *ast.CallExpr, *ast.TypeAssertExpr, *ast.SelectorExpr, *ast.Ident:
+							// (an identifier: a local of this iteration that holds the looked-up value)
 						default:
 							continue
+						}
+						if id, isId := ast.Unparen(rhs).(*ast.Ident); isId {
+							if ov, isVar := info.ObjectOf(id).(*types.Var); !isVar || !(ov.Pos() >= rs.Body.Pos() && ov.Pos() < rs.Body.End()) {
+								continue
+							}
 						}
 						if c, isC := ast.Unparen(rhs).(*ast.CallExpr); isC && isBuiltinCall(info, c, "append") {
 							continue
@@ -426,6 +433,9 @@ func runStaleElementState(p *Prog, r *Report) {
 							classifies = true
 						}
 					}
+				}
+				if os.Getenv("HCLVERIF_STALEDEBUG") != "" {
+					fmt.Printf("STALE %s %s classifies=%v\n", fn.Name, v.Name(), classifies)
 				}
 				if !classifies {
 					continue
@@ -479,6 +489,59 @@ func runStaleElementState(p *Prog, r *Report) {
 					return true
 				})
 				if len(reads) == 0 {
+					continue
+				}
+				// a "previous element" tracker: every assignment comes after all reads of the
+				// iteration (no read is reachable from an assignment without going round the
+				// loop) — carrying the value over is the point
+				// (within one iteration control only moves forward through the body, so a read
+				// that lies textually before every assignment cannot see this iteration's value)
+				sameIter := false
+				for _, a := range asns {
+					for _, rd := range reads {
+						if rd.Pos() > a.Pos() {
+							sameIter = true
+						}
+					}
+				}
+				if !sameIter {
+					continue
+				}
+				// an assignment after which the loop is always left (return / break) hands nothing
+				// to a later iteration: the value read on the other paths is the one from before the loop
+				carries := false
+				if len(rs.Body.List) > 0 {
+					first := ast.Node(rs.Body.List[0])
+					for k := 0; k < 4; k++ {
+						switch x := first.(type) {
+						case *ast.IfStmt:
+							if x.Init != nil {
+								first = x.Init
+							} else {
+								first = x.Cond
+							}
+							continue
+						case *ast.SwitchStmt:
+							if x.Init != nil {
+								first = x.Init
+							} else if x.Tag != nil {
+								first = x.Tag
+							}
+						case *ast.BlockStmt:
+							if len(x.List) > 0 {
+								first = x.List[0]
+								continue
+							}
+						}
+						break
+					}
+					for _, a := range asns {
+						if reachesStmt(fn, a, first, nil) {
+							carries = true
+						}
+					}
+				}
+				if !carries {
 					continue
 				}
 				n++
